@@ -67,6 +67,10 @@ struct Scenario {
     batches: Vec<Vec<TSpec>>,
     /// the probe's allocator gives freed blocks back at once (addresses are reused immediately)
     no_quarantine: bool,
+    /// the address-reuse family: threads of one result class spawned and joined one after the
+    /// other, so that each join state is built where the previous one was just freed while the
+    /// previous thread's clear-tid wake may still be on its way
+    reuse_chain: bool,
 }
 
 impl Scenario {
@@ -104,6 +108,21 @@ fn gen_scenario(dec: &mut Dec, flavor: Flavor, tier: Tier) -> Scenario {
         (Flavor::C06, Tier::Thorough) if dec.chance(K::Cfg, 1, 40) => 20 + dec.choose(K::Cfg, 41),
         _ => nb,
     };
+    if flavor == Flavor::C05 && dec.chance(K::Cfg, 1, 5) {
+        let class = *dec.pick(K::Arg, &[C_UNIT, C_U8, C_U64, C_B24, C_BOOL, C_OPT_U32]);
+        let mut tag = 0;
+        let mut batches = Vec::new();
+        for _ in 0..1 + dec.choose(K::Cfg, 2) {
+            let mut b = Vec::new();
+            for _ in 0..MAX_THREADS_PER_BATCH {
+                tag += 1;
+                let sleep_ms = if dec.chance(K::Arg, 1, 3) { 1 } else { 0 };
+                b.push(TSpec { tag, class, panics: false, panic_in_print: false, nrec: 1 + dec.choose(K::Arg, 3), sleep_ms, alloc: 0, fate: FATE_JOIN_NOW });
+            }
+            batches.push(b);
+        }
+        return Scenario { batches, no_quarantine: true, reuse_chain: true };
+    }
     let mut tag = 0;
     let mut print_panic_used = false;
     let mut batches = Vec::new();
@@ -139,7 +158,7 @@ fn gen_scenario(dec: &mut Dec, flavor: Flavor, tier: Tier) -> Scenario {
     // one run in four: no quarantine in the probe's allocator, a freed join state is reused by the
     // next spawn at once (a late wake or write aimed at the old one then meets the new one)
     let no_quarantine = dec.chance(K::Cfg, 1, 4);
-    Scenario { batches, no_quarantine }
+    Scenario { batches, no_quarantine, reuse_chain: false }
 }
 
 fn probe_path(profile: &str) -> PathBuf {
@@ -524,6 +543,9 @@ fn run_case(flavor: Flavor, case: u64, mut dec: Dec, opts: &RunOpts) -> RunOut {
     // the kernel clears a thread's tid word and wakes its futex in two steps: the wake may come
     // a few quanta after the zero is visible
     cfg.defer_ctid_wake_max = *dec.pick(K::Cfg, &[0u32, 0, 4, 24]);
+    if scn.reuse_chain {
+        cfg.defer_ctid_wake_max = *dec.pick(K::Cfg, &[4u32, 24, 60]);
+    }
     // a third of the runs: a futex wait (join, handle drop, allocator lock) is interrupted up to 3
     // times (EINTR: a signal with a handler arrives); the wait has to be taken up again
     cfg.futex_eintr_den = *dec.pick(K::Cfg, &[0u32, 0, 5]);
@@ -564,6 +586,7 @@ fn run_case(flavor: Flavor, case: u64, mut dec: Dec, opts: &RunOpts) -> RunOut {
             ro.counters.insert("probe.note_only_runs_with_spurious_futex", 1);
         }
     }
+    ro.counters.insert("probe.reuse_chain_runs", u64::from(scn.reuse_chain));
     let sh = scn.hash();
     ro.hash = mix(&[out.hash, sh, u64::from(debug_probe)]);
     ro.shape = mix(&[out.shape, sh]);
